@@ -2,7 +2,7 @@
    Theorems only.  Model: Pure/Desirable.v (getMostDesirableNode,
    getMostPriorityNode, filterOutNodeFromPositions of internal/app/util.go). *)
 From Coq Require Import ZArith NArith Bool List.
-From Mysync Require Import Gtid.Interval Gtid.GtidSet Proofs.GtidProofs Pure.Desirable Proofs.DesirableProofs.
+From Mysync Require Import Gtid.Interval Gtid.GtidSet Proofs.GtidProofs Pure.Desirable Proofs.DesirableProofs Proofs.DesirableLag.
 Import ListNotations.
 Open Scope Z_scope.
 
@@ -60,3 +60,10 @@ Example C14_example :
   let b := {| p_host := 2%N; p_set := [(1%N, [(0%N, [(1, 21)])])]; p_lag := 3; p_prio := 5 |} in
   most_desirable 3 [a; b] 50 = DesFound 2%N /\ most_desirable 3 [a; b] 200 = DesFound 1%N.
 Proof. vm_compute. split; reflexivity. Qed.
+
+(* "... then with less lag": of all candidates with the top priority and exactly the transactions of the chosen one,
+   the chosen one has the least lag - for every list of well-formed positions, in any order *)
+Theorem C14_then_less_lag : forall ps top, all_wf ps -> most_priority ps = Some top ->
+  forall p, In p ps -> p_prio p = p_prio top -> same (p_set p) (p_set top) -> p_lag top <= p_lag p.
+Proof. exact most_priority_least_lag. Qed.
+Print Assumptions C14_then_less_lag.
